@@ -81,7 +81,7 @@ struct C06 : public Driver {
             sc.useImport = g.chance(1, 3); sc.useInclude = g.chance(1, 4); sc.docFn = g.chance(1, 3); sc.stripSpace = g.chance(1, 4);
             static const std::vector<std::string> encs = { "UTF-8", "UTF-8", "UTF-16", "ISO-8859-1", "US-ASCII" }; sc.encoding = g.pick(encs);
             static const std::vector<std::string> orders = { "doc", "rk", "rev" }; sc.order = g.pick(orders);
-            if (i > 0) { sc.abortKind = g.pick(aborts); const GenDoc& d = gd[g.below(3)]; sc.abortNode = d.ids[g.below(std::min<size_t>(d.ids.size(), 12))]; }
+            if (i > 0) { sc.abortPlace = (int)g.below(3); sc.abortKind = g.pick(aborts); const GenDoc& d = gd[g.below(3)]; sc.abortNode = d.ids[g.below(std::min<size_t>(d.ids.size(), 12))]; }
             sab.push(sc.abortKind);
             GenSS s = genStylesheet(g, sc, gd[0]); sheets.push(s.xsl); for (auto& kv : s.resources) res[kv.first] = kv.second;
         }
